@@ -82,6 +82,18 @@ def vectorize_mode(repo):
                 ):
                     problems.append(("P0-all-functions", fl.loc(n), f"functions are vectorised only conditionally: `{ast.unparse(comp.value)}`"))
     if applied is None:
+        # loop form: `for name, f in functions.items(): out[name] = _vectorize_func(f)`
+        ldom = Dominance(lc)
+        for loop in walk_own(lc):
+            if not isinstance(loop, ast.For):
+                continue
+            for n in ast.walk(loop):
+                if isinstance(n, ast.Assign) and isinstance(n.targets[0], ast.Subscript) and isinstance(n.targets[0].value, ast.Name) and isinstance(n.value, ast.Call) and isinstance(n.value.func, ast.Name) and n.value.func.id == "_vectorize_func":
+                    applied = n.targets[0].value.id
+                    extra = [c for c in ldom.of(n) if c not in ldom.of(loop)]
+                    if extra:
+                        problems.append(("P0-all-functions", fl.loc(n), f"functions are vectorised only conditionally: under `{ast.unparse(extra[0][0])}`"))
+    if applied is None:
         problems.append(("P0-all-functions", fl.loc(lc), "load_and_check_functions no longer maps _vectorize_func over the loaded functions"))
     else:
         # the merged dict of all functions must use the vectorised mapping, not the raw one
@@ -187,7 +199,7 @@ def input_type_gate(ctx, repo, rid="T0"):
         raise AnalysisError("check_series_has_expected_type no longer takes (series, internal_type)")
     ser, it = params
     try:
-        expr = function_as_expression(fn)
+        expr = function_as_expression(fn, consts=ty.assigns)
     except NotExpressible as e:
         raise AnalysisError(f"check_series_has_expected_type is not an expression over dtype tests ({e}); {rid} needs a re-read") from e
     TYPES = {"float": "float", "int": "int", "bool": "bool", "numpy.datetime64": "date", "np.datetime64": "date", "datetime64": "date"}
